@@ -31,7 +31,7 @@ ASSUMPTIONS = ["six 1.17 shim", "consonance randint(float) coerced", "alternatio
                "library reconnects from inside the propagation of the deferred DISCONNECTED event, so upper layers see "
                "connected(k+1) before disconnected(k)); accounting is", "disconnect requests are only issued while a "
                "connection is up or being established", "pong timing keeps a margin from the tick (the instant in between is not judged)"]
-BUDGET = {"quick": (700, 170), "thorough": (20000, 2400)}
+BUDGET = {"quick": (1500, 170), "thorough": (20000, 2400)}
 FAULTS = ["connect_refused", "peer_fin", "rst", "srv_no_pong", "srv_late_pong", "stream_error", "login_failure", "tcp_cut"]
 PROBES = ["write_raced_with_close_by_other_thread", "failure_or_stream_error_crossed_client_close", "auto_reconnect_after_stream_error", "no_reconnect_after_conflict", "no_reconnect_option_off", "ping_timeout_disconnect",
           "pings_all_answered_no_disconnect", "passive_key_upload_reboot", "failure_closes_connection", "socket_dispatcher",
@@ -97,7 +97,7 @@ def total(tier):
 def case(idx, tier, base):
     seed = base * (1 << 20) + idx
     r = stream(seed, "workload")
-    ping = r.choice([0, 2, 3, 4, 6])
+    ping = r.choice([0, 1, 2, 3, 4, 6])
     conns = []
     for i in range(r.randint(1, 6)):
         c = {"connect": "refused" if r.random() < 0.12 else "ok",
@@ -522,7 +522,9 @@ class W(fullwire.FullWorld):
                 self.violate("failure-or-stream-error/not-delivered", "server sent %s; the application saw %d failures and %d "
                              "stream errors" % (self.injected, got_fail, got_se))
         # writes to a connection that is down
-        bad = [e for e in self.net.log if e[0] in ("send-after-close", "send-not-connected") and "began-while-open" not in e]
+        # (a zero-length send — asyncore's loop flushing an empty buffer after select() — writes nothing)
+        bad = [e for e in self.net.log if e[0] in ("send-after-close", "send-not-connected") and "began-while-open" not in e
+               and e[2] > 0]
         if any("began-while-open" in e for e in self.net.log):
             self.probe("write_raced_with_close_by_other_thread")
         if bad:
